@@ -241,6 +241,20 @@ Proof.
   eexists. split; [exact Hload|]. cbn [d_objects]. split; [reflexivity|]. split; vm_compute; reflexivity.
 Qed.
 
+(* ---------- the hypothesis on generations is necessary ---------- *)
+(* An update that re-uses object number 2 under ANOTHER generation ((2,1) instead of (2,0)): the merged table has one
+   entry per NUMBER, so the loader returns (2,1) only, while Incremental.overlay, which is keyed by (number, generation),
+   keeps both.  This is why inc_table_good / inc_stream_good / lopdf_history require every new identifier to be a
+   previous identifier or to carry a new number. *)
+Definition ex_sg : incdoc := fold_left apply_edit [ESet (2, 1) (OInt 8)] (create_from ex_F ex_prev).
+
+Theorem gen_hypothesis_needed :
+  (exists d', load (io_bytes (inc_save ex_sg)) = LOk d' XTTable /\
+              d_objects d' = [((1, 0), ODict [(K_Type, OName (bs "Catalog"))]); ((2, 1), OInt 8)]) /\
+  Incremental.overlay (d_objects (reloaded XTable ex_d)) (norm_objects (new_objects ex_sg)) =
+    [((1, 0), ODict [(K_Type, OName (bs "Catalog"))]); ((2, 0), OInt 7); ((2, 1), OInt 8)].
+Proof. split; [eexists; split; vm_compute; reflexivity | vm_compute; reflexivity]. Qed.
+
 Print Assumptions example_reload.
 Print Assumptions example_stream.
 Print Assumptions example_second_update.
